@@ -10,7 +10,8 @@
        arbitrary (map) order. Imports() of a package must resolve every import path to the registered Package: it
        does iff the package object is created after its imports were registered (CreateAfterDeps).
    Loop B: every selection of up to MaxFeatures source features (shadowing local types, type parameters named like
-       package-level types, generic receivers, grouped declarations, init / blank functions, imports ...) is one
+       package-level types, generic receivers, grouped declarations, init / blank functions, imports, a module behind a
+       replace directive ...) is one
        synthetic package; the real dependency closure of gengo's own module is replayed as well.                 *)
 EXTENDS Naturals, Sequences, FiniteSets, TLC, Json
 
